@@ -107,7 +107,7 @@ func VP_C09_frag() {
 	r1 := bytes.NewReader(b)
 	v1, n1, e1 := vpDecode(kind, r1)
 	used1 := n - r1.Len()
-	r2 := &vpPlainReader{b: b, chunk: 1 + vp.Choice(3)}
+	r2 := vpSched(b)
 	v2, n2, e2 := vpDecode(kind, r2)
 	vp.Assert((e1 == nil) == (e2 == nil), "same error-ness under fragmentation")
 	if e1 == nil {
@@ -210,7 +210,7 @@ func VP_C09_compressed_frame() {
 	var q Packet
 	switch vp.Choice(2) {
 	case 0: // fragmentation
-		r := &vpPlainReader{b: append(append([]byte{}, frame...), 0x55), chunk: 1 + vp.Choice(3)}
+		r := vpSchedCut(append(append([]byte{}, frame...), 0x55))
 		vp.Assert(q.UnPack(r, t) == nil, "UnPack under fragmentation")
 		vp.Assert(q.ID == p.ID, "id under fragmentation")
 		vpEqBytes(q.Data, p.Data, "payload under fragmentation")
